@@ -22,7 +22,7 @@ var allYieldPoints = []string{
 	"drain.marked", "drain.snapshot", "drain.end", "lb.waitDone",
 	"lb.stateChanged", "health.completed", "health.updated",
 	"service.beforeDrain", "cmd.found", "snapshot.begin", "snapshot.beforeCreate", "snapshot.created",
-	"snapshot.written",
+	"snapshot.written", "snapshot.beforeRename",
 }
 
 // genSched draws the scheduling policy. stalls: whether virtual time may
